@@ -70,7 +70,8 @@ pub fn run(sh: &mut Shell, cl: &CommandLine, cmd: &Command,
     }
 
     let envs = cl.envs.clone();
-    let value_list = tools::split_into_fields(sh, buffer.trim(), &envs);
+    // one field per name; the last name gets the rest of the line
+    let value_list = tools::split_into_fields(sh, buffer.trim(), &envs, name_list.len());
 
     let idx_2rd_last = name_list.len() - 1;
     for i in 0..idx_2rd_last {
@@ -88,7 +89,7 @@ pub fn run(sh: &mut Shell, cl: &CommandLine, cmd: &Command,
 
     let name_last = &name_list[idx_2rd_last];
     let value_left: String = if value_list.len() > idx_2rd_last {
-        value_list[idx_2rd_last..].join(" ")
+        value_list[idx_2rd_last].clone()
     } else {
         String::new()
     };
